@@ -19,6 +19,13 @@
        of c.h takes c.mu, so no other thread can see the difference;
      * [isResolved()] + the read of [resolvedHook] are one read: [resolved] is monotone and
        [resolvedHook] is written once, before [resolved] is closed, under h.mu.
+   One read is placed earlier than in the code: startCall evaluates [savedHook.isResolved()]
+   after [c.h.mu.Unlock()], the model reads [h_resolved] inside the locked section.  The value
+   only feeds Client.State's IsPromise (the [RBool] result of [OState]); a Fulfill of that
+   hook that slips between the Unlock and the read makes the code report "resolved" where the
+   model says "promise".  No theorem depends on that result, no other state depends on the
+   read, and the harness has no pause point there (both run in one step), so the correspondence
+   is unaffected; State's IsPromise under that race is outside what is proved.
    [<-h.done; h.Shutdown()] is the pc [WaitDone]: enabled once done is closed.
    A call-out (ClientHook.Send/Recv) is the pc [InCall]: its [step] is the application
    returning from the call-out (always enabled; it is the environment's move).
